@@ -218,6 +218,33 @@ func checkEntry(w *hc.W, e common.Entry) {
 		}
 	}
 
+	// (b2) the forms xterm itself (and st, tmux, ...: every xterm-style terminal) sends for the
+	// modified cursor and editing keys, whatever unmodified form the description lists:
+	// CSI 1 ; m A/B/C/D/H/F and CSI n ; m ~ (xterm ctlseqs, "PC-Style Function Keys")
+	if e.Ti.Modifiers == 1 {
+		canon := []struct {
+			pre, fin string
+			key      tcell.Key
+		}{
+			{"\x1b[1;", "A", tcell.KeyUp}, {"\x1b[1;", "B", tcell.KeyDown}, {"\x1b[1;", "C", tcell.KeyRight}, {"\x1b[1;", "D", tcell.KeyLeft},
+			{"\x1b[1;", "H", tcell.KeyHome}, {"\x1b[1;", "F", tcell.KeyEnd},
+			{"\x1b[2;", "~", tcell.KeyInsert}, {"\x1b[3;", "~", tcell.KeyDelete}, {"\x1b[5;", "~", tcell.KeyPgUp}, {"\x1b[6;", "~", tcell.KeyPgDn},
+		}
+		for _, c := range canon {
+			for m := 2; m <= 16; m++ {
+				seq := fmt.Sprintf("%s%d%s", c.pre, m, c.fin)
+				if _, own := assigned[seq]; own {
+					continue // the description gives this sequence a meaning of its own
+				}
+				want := ri.KM{Key: c.key, Mod: ri.XtermMods(m)}
+				evs, ok := one(seq)
+				if ok && (len(evs) != 1 || !accepts([]ri.KM{want}, evs[0])) {
+					viol("xtermmod-canonical", seq, fmt.Sprintf("xterm's sequence for %s with modifier parameter %d decodes to %s, xterm encodes %v", tcell.KeyNames[c.key], m, fmtEvs(evs), want))
+				}
+			}
+		}
+	}
+
 	// (c) single control bytes and DEL
 	for b := 0; b < 32; b++ {
 		seq := string([]byte{byte(b)})
